@@ -19,5 +19,15 @@ Expected == { <<"T1", p[1], p[2]>> : p \in { q \in (1..2) \X (1..3) : Match(q[1]
             \cup { <<"T0", x, 0>> : x \in { xx \in 1..2 : ~\E y \in 1..3 : Match(xx, y) } }
 \* sanity: every x is accounted for exactly by one kind of conclusion
 Covered == \A x \in 1..2 : (\E t \in Expected : t[2] = x) /\ ~(\E s, t \in Expected : s[2] = x /\ t[2] = x /\ s[1] # t[1])
-Emit == PrintT(ToJson([xa |-> xa, ya |-> ya, exp |-> Expected]))
+\* Second template: the alternative INSIDE the refinement's block introduces the variable, and the branches conclude over
+\* different variable sets:
+\*    rule over x (base TRUE, T0(p = x))
+\*       refinement(x.a == 1)          T1(p = x)
+\*          alternative(z.a == x.b)    T2(p = x, r = z)       (else-if sibling of the refinement; z = the y domain; x.b = 2 - x.a)
+\* x with a = 1 gets T1; otherwise every z with z.a = x.b gives a T2(x, z); otherwise the base conclusion.
+XB(x) == 2 - xa[x]
+Expected2 == { <<"T1", x, 0>> : x \in { xx \in 1..2 : xa[xx] = 1 } }
+             \cup { <<"T2", p[1], p[2]>> : p \in { q \in (1..2) \X (1..3) : xa[q[1]] # 1 /\ ya[q[2]] = XB(q[1]) } }
+             \cup { <<"T0", x, 0>> : x \in { xx \in 1..2 : xa[xx] # 1 /\ ~\E z \in 1..3 : ya[z] = XB(xx) } }
+Emit == PrintT(ToJson([xa |-> xa, ya |-> ya, exp |-> Expected, exp2 |-> Expected2]))
 ====
